@@ -119,7 +119,9 @@ func (g *PG) Expr(depth int, sc scope) types.MalType {
 		}
 		return g.Lit()
 	}
-	switch g.R.Intn(16) {
+	switch g.R.Intn(17) {
+	case 16:
+		return g.macroBuiltCall(depth, sc)
 	case 0:
 		return g.Lit()
 	case 1:
@@ -283,4 +285,38 @@ func (g *PG) recursion(depth int, sc scope) types.MalType {
 // Program is one top-level program for C01.
 func (g *PG) Program(depth int) types.MalType {
 	return g.Expr(depth, scope{})
+}
+
+// macroBuiltCall: a builtin that calls back into lisp (map, apply, eval, swap!, update) whose
+// call form is BUILT AT RUN TIME by a macro (hence carries no source position), around a
+// closure that fails at a positioned form; sometimes inside try/catch.
+func (g *PG) macroBuiltCall(depth int, sc scope) types.MalType {
+	g.tag("macro-built-propagating-call")
+	failing := []types.MalType{
+		Call("throw", types.HashMap{Val: map[string]types.MalType{Kw("bad"): S("v")}}),
+		Call("undefined-zz", S("v")), Call("first", 5), Call("nth", V(1), S("v")), Call("+", S("v"), 1),
+	}[g.R.Intn(5)]
+	f := Call("fn", V(S("v")), Call("trace!", S("v")), failing)
+	qq := func(xs ...types.MalType) types.MalType { return L(S("quasiquote"), L(xs...)) }
+	uq := func(x string) types.MalType { return L(S("unquote"), S(x)) }
+	var def, call types.MalType
+	switch g.R.Intn(4) {
+	case 0:
+		def = Call("defmacro", S("mm!"), Call("fn", V(S("f"), S("x")), qq(S("map"), uq("f"), uq("x"))))
+		call = Call("mm!", f, V(3, 4))
+	case 1:
+		def = Call("defmacro", S("mm!"), Call("fn", V(S("f"), S("x")), qq(S("apply"), uq("f"), uq("x"))))
+		call = Call("mm!", f, V(3))
+	case 2:
+		def = Call("defmacro", S("mm!"), Call("fn", V(S("f"), S("x")), qq(S("swap!"), L(S("atom"), 3), uq("f"))))
+		call = Call("mm!", f, 0)
+	default:
+		def = Call("defmacro", S("mm!"), Call("fn", V(S("f"), S("x")), qq(S("eval"), qq(uq("f"), 3))))
+		call = Call("mm!", f, 0)
+	}
+	if g.R.Bool() {
+		g.tag("macro-built-call-in-try")
+		call = Call("try", call, Call("catch", S("e"), Call("list", Kw("caught"), S("e"))))
+	}
+	return Call("do", def, call)
 }
